@@ -2105,6 +2105,14 @@ func (e *codecEngine) Corpus(_ bool) []Case {
 		"mal target=meta hex=", "mal target=decrypt hex=", "mal target=decrypt hex=01",
 	}
 
+	// YAML resource documents with a repeated or missing section (the custom unmarshaler sees duplicate keys)
+	mdSec := "metadata:\n    namespace: n\n    type: " + codecResType + "\n    id: i\n    version: 1\n    owner:\n    phase: running\n    created: 2000-01-01T00:00:00Z\n    updated: 2000-01-01T00:00:00Z\n"
+	spSec := "spec:\n    s: x\n"
+
+	for _, doc := range []string{mdSec + spSec, mdSec + mdSec, spSec + spSec, mdSec + spSec + mdSec, mdSec + spSec + spSec, spSec + mdSec, mdSec, spSec, mdSec + "spec: 1\n" + spSec} {
+		ops = append(ops, "mal target=yamlres hex="+hex.EncodeToString([]byte(doc)))
+	}
+
 	if codecD4Stream() {
 		ops = append(ops,
 			"ver s="+cdcHx("-1")+" d4=1", "ver s="+cdcHx("-9223372036854775808")+" d4=1", "ver s="+cdcHx("-0")+" d4=1",
@@ -2454,6 +2462,41 @@ func (g *codecGen) malformedText(valid []byte) []byte {
 		return []byte(strings.Join(lines, "\n"))
 	case x < 85:
 		return []byte(Pick(r, []string{"", "\n", "[]", "{}", "a", "- a", "metadata: {}\nspec: {}\n", "metadata:\n  type: " + codecResType + "\nspec:\n  s: x\n", "metadata:\n  type: nope\nspec: {}\n", "--- \n--- \n", "metadata: {}\nspec: {}\nextra: {}\n", "\t", "%YAML 9.9\n---\na: b\n", "&a [*a]", "a: !!binary ===\n", "? a\n", "'", "\"\\x", "a: b: c"}))
+	case x < 93:
+		// section-level edits: the top-level blocks of the document repeated, dropped or swapped (a mapping with the
+		// same key twice reaches a custom unmarshaler: yaml does not reject duplicate keys before calling it)
+		var blocks []string
+
+		for _, l := range strings.SplitAfter(string(valid), "\n") {
+			if l == "" {
+				continue
+			}
+
+			if len(blocks) == 0 || (l[0] != ' ' && l[0] != '-' && l[0] != '\n') {
+				blocks = append(blocks, l)
+			} else {
+				blocks[len(blocks)-1] += l
+			}
+		}
+
+		if len(blocks) < 2 {
+			return valid
+		}
+
+		i, j := r.Intn(len(blocks)), r.Intn(len(blocks))
+
+		switch r.Intn(4) {
+		case 0: // block i replaces block j (two sections with the same key, one section lost)
+			blocks[j] = blocks[i]
+		case 1: // block i once more at the end
+			blocks = append(blocks, blocks[i])
+		case 2:
+			blocks[i], blocks[j] = blocks[j], blocks[i]
+		default:
+			blocks = append(blocks[:i], blocks[i+1:]...)
+		}
+
+		return []byte(strings.Join(blocks, ""))
 	default:
 		return valid
 	}
